@@ -3,7 +3,7 @@ import math
 import numpy as np
 import scipy as sp
 
-from pygradflow.linear_solver import LinearSolver
+from pygradflow.linear_solver import LinearSolver, LinearSolverError
 from pygradflow.log import logger
 from pygradflow.params import Params
 
@@ -91,7 +91,9 @@ class ConditionEstimator:
             yfac *= ynorm
             yprod /= ynorm
 
-            assert y.dot(yprod) > 0.0
+            if not (y.dot(yprod) > 0.0):
+                # inexact or (near) singular solves: no meaningful estimate
+                raise LinearSolverError("Condition estimate failed")
 
         pow_fac = 1.0 / (2.0 * num_its)
 
